@@ -2368,6 +2368,14 @@ func (t *Topic) replySetDesc(sess *Session, asUid types.Uid, asChan bool,
 			return err
 		}
 
+		if _, subscribed := t.perUser[asUid]; !subscribed && set.Desc.Private != nil &&
+			(t.cat == types.TopicCatGrp || t.cat == types.TopicCatP2P) {
+			// Private data belongs to a subscription. A user who is not subscribed (a root session attached on behalf
+			// of somebody else) has none: nothing would be stored, and caching the value would create a subscriber record.
+			sess.queueOut(ErrPermissionDeniedReply(msg, now))
+			return errors.New("attempt to assign private data by a user who is not subscribed")
+		}
+
 		sendPriv = assignGenericValues(sub, "Private", t.perUser[asUid].private, set.Desc.Private)
 	}
 
